@@ -8,7 +8,13 @@ U = ("C02", "C12", "C14", "C15", "C19")
 
 def apply(ctx, W):
     g = W.file("grammar.rs")
-    rules.from_impl_into_verus(ctx, g, "&str", "ItemPathSegment", "crate::verif_specs::spec_segment(v@)", tags=("C14",), trusted=True)
+    rules.from_impl_into_verus(ctx, g, "&str", "ItemPathSegment", "crate::verif_specs::spec_segment(v@)", tags=("C14",), trusted=False)
+    im_s = g.impls("ItemPathSegment", "From<&str>")[0]
+    f_s = [n for n in g.nodes if n["kind"] == "fn" and g._impl_of(n) is im_s][0]
+    rules.bind_tail(ctx, g, "grammar::<From<&str> for ItemPathSegment>::from", f_s, "seg", """proof {
+            crate::verif_specs::axiom_spec_segment(value@);
+            crate::verif_specs::axiom_segment_ext(seg, crate::verif_specs::spec_segment(value@));
+        }""", tags=("C14",))
     m = W.file("semantic/module.rs")
     rules.plumbing_once(m)
     mn = m.fn("Module::new")
